@@ -27,7 +27,7 @@ def classOutcome (name : String) : Out :=
   | "create-negative-space" => (createInt 1 2 1 1 (-1)).1
   | "search-k-zero" => search ds 2 0 20 32
   | "search-k-max" | "search-partitions-k-max" => search ds 2 4294967295 20 32
-  | "non-finite-vectors" => Validate.insert ds 16 2
+  | "non-finite-vectors" | "cosine-zero-vector" => Validate.insert ds 16 2
   | "empty-vector" => Validate.insert ds 16 0
   | "update-without-metadata" => Validate.insert ds 16 2
   | "oversized-batch" => batchWrite ds (List.replicate 101 (16, 2))
